@@ -83,3 +83,14 @@ def replace_site_vector(Alist, i, X):
     B = list(Alist)
     B[i] = X
     return mps_to_vector(B)
+
+
+def safe_norm(x):
+    """Frobenius norm that neither underflows nor overflows for extreme but representable magnitudes."""
+    x = np.asarray(x)
+    if x.size == 0:
+        return 0.0
+    m = float(np.abs(x).max())
+    if m == 0 or not np.isfinite(m):
+        return m
+    return m * float(np.linalg.norm(x / m))
